@@ -778,7 +778,7 @@ def gen_body(rng, mod, earlier, sim, mods, rich):
                         body.insert(rng.randint(k2 + 1, len(body)), ["from", list(tp2), "__all__", it[1], style()])
                         ns[it[1]] = ("all", dotted(tp2))
     # blocks guarded by TYPE_CHECKING: `if not [typing.]TYPE_CHECKING:` runs (its statements are ordinary ones), `if [typing.]TYPE_CHECKING:`
-    # does not (it binds fresh names T<k> for type checkers only; its `else:` runs)
+    # does not (it binds fresh names T<k> for type checkers only; its `else:` runs); the `else:` of the negated test does not run either
     if rng.random() < 0.12 and body:
         simple = [i for i, st in enumerate(body) if st[0] in ("def", "from", "star", "import")]
         if simple:
@@ -797,7 +797,7 @@ def gen_body(rng, mod, earlier, sim, mods, rich):
                 else:
                     tonly.append(["from", list(anym["path"][:-1]), anym["path"][-1], f"T{q}", "abs"])
             if rng.random() < 0.5:
-                body[i:j] = [["guard", "not-" + typ + "tc", run, []]]
+                body[i:j] = [["guard", "not-" + typ + "tc", run, tonly if rng.random() < 0.4 else []]]
             elif rng.random() < 0.6:
                 body[i:j] = [["guard", typ + "tc", tonly, run]]
             else:
@@ -1098,13 +1098,13 @@ def all_witnesses():
         _m(["wf12", "d"], False, [["from", ["wf12", "a"], "__all__", "a0", "rel"]]),
         _m(["wf12", "c"], False, [["star", ["wf12", "a"], "rel"], ["from", ["wf12", "b"], "__all__", "a0", "rel"], ["star", ["wf12", "d"], "rel"],
                                   ["setall", "list", [["name", "a0", "list"]]]])]}
-    # F13: `from .a import __all__` binds the importing module's own __all__ to a's list; Griffe records no exports
+    # F13 (repaired): `from .a import __all__` binds the importing module's own __all__ to a's list; Griffe recorded no exports
     W["C05-F13"] = {"name": "wf13", "order": ["wf13", "wf13.a", "wf13.c", "wf13.u"], "modules": [
         _m(["wf13"], True, []),
         _m(["wf13", "a"], False, [["setall", "list", [["s", "f"]]], ["def", "f", "func"], ["def", "g", "func"]]),
         _m(["wf13", "c"], False, [["star", ["wf13", "a"], "rel"], ["from", ["wf13", "a"], "g", None, "rel"], ["from", ["wf13", "a"], "__all__", None, "rel"]]),
         _m(["wf13", "u"], False, [["star", ["wf13", "c"], "rel"]])]}
-    # F14: the else branch of `if not TYPE_CHECKING:` does not run, Griffe treats it as run-time code
+    # F14 (repaired): the else branch of `if not TYPE_CHECKING:` does not run, Griffe treated it as run-time code
     W["C05-F14"] = {"name": "wf14", "order": ["wf14", "wf14.a", "wf14.n", "wf14.u"], "modules": [
         _m(["wf14"], True, []),
         _m(["wf14", "a"], False, [["def", "f", "func"], ["def", "g", "func"]]),
@@ -1117,7 +1117,7 @@ def all_witnesses():
         _m(["wf15", "a"], False, [["def", "g", "func"]]),
         _m(["wf15", "s"], False, [["def", "f", "func"], ["guard", "tc", [["from", ["wf15", "a"], "g", "f", "rel"]], []]]),
         _m(["wf15", "u"], False, [["star", ["wf15", "s"], "rel"]])]}
-    # F16: a wildcard import inside `if TYPE_CHECKING:` is expanded into run-time members
+    # F16 (repaired): a wildcard import inside `if TYPE_CHECKING:` was expanded into run-time members
     W["C05-F16"] = {"name": "wf16", "order": ["wf16", "wf16.a", "wf16.t", "wf16.u"], "modules": [
         _m(["wf16"], True, []),
         _m(["wf16", "a"], False, [["def", "f", "func"]]),
@@ -1126,9 +1126,10 @@ def all_witnesses():
     return W
 
 
-# findings about statements the Coq grammar does not have (bindings under TYPE_CHECKING guards): replayed on the implementation only
-OUTSIDE_MODEL = ("C05-F14", "C05-F15", "C05-F16")
-REPAIRED = ("C05-F1", "C05-F2", "C05-F6", "C05-F9", "C05-F11")
+# findings about statements the Coq grammar does not have (bindings under TYPE_CHECKING guards, a statement binding the name __all__):
+# replayed on the implementation only
+OUTSIDE_MODEL = ("C05-F13", "C05-F14", "C05-F15", "C05-F16")
+REPAIRED = ("C05-F1", "C05-F2", "C05-F6", "C05-F9", "C05-F11", "C05-F13", "C05-F14", "C05-F16")
 
 
 def witness_packages():
@@ -1320,8 +1321,36 @@ def hand_packages():
         _m(["h3", "e"], False, [["guard", "tc", [["import", ["h3", "d"], "T0"]], []], ["star", ["h3", "d"], "abs"], ["def", "h", "func"],
                                 ["setall", "list", [["s", "f"], ["s", "h"]]]])]})
     # witnesses of repaired findings (F1, F2, F6, F9, F11): they must now agree with the interpreter
-    H.extend(v for k, v in all_witnesses().items() if k in REPAIRED)
+    H.extend(v for k, v in all_witnesses().items() if k in REPAIRED and k not in OUTSIDE_MODEL)
     return H
+
+
+def corpus_outside_model():
+    """Witnesses of repaired findings about statements outside the Coq grammar: Griffe must agree with the interpreter on them."""
+    return [v for k, v in all_witnesses().items() if k in REPAIRED and k in OUTSIDE_MODEL]
+
+
+def check_direct_only(ctx, pkgs):
+    """Implementation against the interpreter only (no model): every difference is a violation."""
+    root = ctx.scratch / "corpus-direct"
+    root.mkdir(parents=True, exist_ok=True)
+    for p in pkgs:
+        write_package(root, p)
+    orc = run_oracle(root, pkgs)
+    for pkg, a in zip(pkgs, orc):
+        case = {"package": pkg["name"], "order": pkg["order"], "sources": package_sources(pkg), "abstract": pkg["modules"]}
+        ctx.case({"sources": case["sources"]}, True)
+        view = griffe_view(root, pkg)
+        view.pop("top", None)
+        ctx.observe("stream", "corpus-direct")
+        if a["error"]:
+            ctx.tie_failure("harness", "corpus package rejected by the interpreter", a["error"], case)
+            continue
+        for pb in view["present"][:3]:
+            ctx.property_failure(case, {"presentation": pb}, None)
+        for x in diff_views(view, a):
+            ctx.property_failure(case, {"module": x[0], "name": x[1], "griffe": x[2], "cpython": x[3]}, None)
+    subprocess.run(["rm", "-rf", str(root)])
 
 
 # --------------------------------------------------------------------------------------------------------------------
@@ -1521,6 +1550,7 @@ def replay_witnesses(ctx):
 def explore(ctx):
     replay_witnesses(ctx)
     check_packages(ctx, hand_packages(), "hand")
+    check_direct_only(ctx, corpus_outside_model())
     n_flat = ctx.budget(1000, 8000)
     n_rich = ctx.budget(2000, 20000)
     k = 0
